@@ -132,3 +132,50 @@ package datastore
 // C20: no-panic sweep over the request validation and conversion functions of the datastore
 //@ sweep C20: (*Datastore).validatePath (*Datastore).validateUpdate (*Datastore).SdcpbTransactionIntentToInternalTI (*Datastore).expandAndConvertIntent
 //@   pathIsKeyAsLeaf validateFieldValue validateLeafTypeValue validateLeafListValue (*Datastore).storeSyncMsg (*Datastore).subscribeResponseFromCacheUpdate
+
+// ---------------------------------------------------------------------------
+// C14: request-side plumbing of GetData. What the cache returns for a prefix read is the cache library's business
+// (assumed); proved here: which stores a request reads, that an invalid request fails before anything is read,
+// and that the reader of the requested encoding is the one that runs.
+
+// (the three readers handleGetDataUpdates* are the only callees of Get that read the cache: "nothing is read" is
+// stated as "no reader runs")
+//@ pred noReader() = !called(handleGetDataUpdatesSTRING) && !called(handleGetDataUpdatesJSON) && !called(handleGetDataUpdatesPROTO)
+
+// the stores a request reads: INTENDED alone for the intended datastore; CONFIG (+ STATE unless a candidate is named) for ALL;
+// CONFIG for CONFIG; STATE for STATE unless a candidate is named
+//@ func getStores
+//@   props C14
+//@   modifies nothing
+//@   ensures intended_reads_intended_only: istype(req, *sdcpb.GetDataRequest) && dyn(req, *sdcpb.GetDataRequest) != nil && dyn(req, *sdcpb.GetDataRequest).GetDatastore().GetType() == sdcpb.Type_INTENDED ==>
+//@            len(result) == 1 && result[0] == cachepb.Store_INTENDED
+//@   ensures never_intended_otherwise: !(istype(req, *sdcpb.GetDataRequest) && dyn(req, *sdcpb.GetDataRequest).GetDatastore().GetType() == sdcpb.Type_INTENDED) ==>
+//@            forall(i, 0, len(result), result[i] != cachepb.Store_INTENDED)
+//@   ensures config_request: istype(req, *sdcpb.GetDataRequest) && dyn(req, *sdcpb.GetDataRequest) != nil && dyn(req, *sdcpb.GetDataRequest).GetDatastore().GetType() != sdcpb.Type_INTENDED &&
+//@            dyn(req, *sdcpb.GetDataRequest).GetDataType() == sdcpb.DataType_CONFIG ==> len(result) == 1 && result[0] == cachepb.Store_CONFIG
+//@   ensures state_request: istype(req, *sdcpb.GetDataRequest) && dyn(req, *sdcpb.GetDataRequest) != nil && dyn(req, *sdcpb.GetDataRequest).GetDatastore().GetType() != sdcpb.Type_INTENDED &&
+//@            dyn(req, *sdcpb.GetDataRequest).GetDataType() == sdcpb.DataType_STATE ==>
+//@            ite(dyn(req, *sdcpb.GetDataRequest).GetDatastore().GetName() == "", len(result) == 1 && result[0] == cachepb.Store_STATE, len(result) == 0)
+//@   ensures all_request: istype(req, *sdcpb.GetDataRequest) && dyn(req, *sdcpb.GetDataRequest) != nil && dyn(req, *sdcpb.GetDataRequest).GetDatastore().GetType() != sdcpb.Type_INTENDED &&
+//@            dyn(req, *sdcpb.GetDataRequest).GetDataType() == sdcpb.DataType_ALL ==>
+//@            len(result) >= 1 && result[0] == cachepb.Store_CONFIG &&
+//@            ite(dyn(req, *sdcpb.GetDataRequest).GetDatastore().GetName() == "", len(result) == 2 && result[1] == cachepb.Store_STATE, len(result) == 1)
+
+//@ pred knownEncoding(e) = e == sdcpb.Encoding_STRING || e == sdcpb.Encoding_JSON || e == sdcpb.Encoding_JSON_IETF || e == sdcpb.Encoding_PROTO
+//@ func (*Datastore).Get
+//@   props C14
+//@   requires d != nil && d.cacheClient != nil && d.schemaClient != nil
+//@   let enc = req.GetEncoding()
+//@   let intendedState = req.GetDatastore().GetType() == sdcpb.Type_INTENDED && req.GetDataType() == sdcpb.DataType_STATE
+//@   let npaths = len(req.GetPath())
+//@   ensures intended_state_is_refused: intendedState ==> r0 != nil && noReader()
+//@   ensures unknown_encoding_is_refused: !knownEncoding(enc) ==> r0 != nil && noReader()
+//@   ensures invalid_path_is_refused: called(validatePath) && callres(validatePath) != nil ==> r0 != nil && noReader()
+//@   ensures string_reader: called(handleGetDataUpdatesSTRING) ==> enc == sdcpb.Encoding_STRING && !called(handleGetDataUpdatesJSON) && !called(handleGetDataUpdatesPROTO)
+//@   ensures proto_reader: called(handleGetDataUpdatesPROTO) ==> enc == sdcpb.Encoding_PROTO && !called(handleGetDataUpdatesJSON) && !called(handleGetDataUpdatesSTRING)
+//@   ensures json_reader: called(handleGetDataUpdatesJSON) ==> (enc == sdcpb.Encoding_JSON || enc == sdcpb.Encoding_JSON_IETF) && !called(handleGetDataUpdatesSTRING) && !called(handleGetDataUpdatesPROTO)
+//@   ensures json_flavour_first_site: called(handleGetDataUpdatesJSON, 0) ==> callarg(handleGetDataUpdatesJSON, 0, 6) == (enc == sdcpb.Encoding_JSON_IETF)
+//@   ensures json_flavour_second_site: called(handleGetDataUpdatesJSON, 1) ==> callarg(handleGetDataUpdatesJSON, 1, 6) == (enc == sdcpb.Encoding_JSON_IETF)
+//@   ensures reader_error_is_returned: called(handleGetDataUpdatesSTRING) ==> r0 == callres(handleGetDataUpdatesSTRING)
+//@   ensures a_valid_request_is_read: knownEncoding(enc) && !intendedState && npaths == 0 ==>
+//@            called(handleGetDataUpdatesSTRING) || called(handleGetDataUpdatesJSON) || called(handleGetDataUpdatesPROTO)
